@@ -199,7 +199,7 @@ pub fn run_c05_wire(ctx: &Ctx) {
             }
         }
     }
-    run_wire(ctx, &prop, hostile_batch_strategy(), ctx.tier.pick(16, 1500), 1);
+    run_wire(ctx, &prop, hostile_batch_strategy(), ctx.tier.pick(16, 400), 1);
 }
 
 // ---------------------------------------------------------------------------------------------
@@ -579,7 +579,7 @@ pub fn run_c08_wire(ctx: &Ctx) {
             return;
         }
     };
-    run_wire(ctx, &prop, acl_wire_strategy(), ctx.tier.pick(40, 1500), 1);
+    run_wire(ctx, &prop, acl_wire_strategy(), ctx.tier.pick(40, 600), 1);
 }
 
 // ---------------------------------------------------------------------------------------------
@@ -926,7 +926,7 @@ pub fn run_c16_wire(ctx: &Ctx) {
                 cookie_variants,
             }
         });
-    run_wire(ctx, &prop, strat, ctx.tier.pick(6, 120), 1);
+    run_wire(ctx, &prop, strat, ctx.tier.pick(6, 40), 1);
 }
 
 pub fn replay(id: &str, sub: &str, case: &serde_json::Value) -> Option<Result<Outcome, String>> {
